@@ -841,6 +841,7 @@ func streamCase(t *common.Trace, e common.Engine, r *common.Rng, c *caseCfg, lab
 			n = c.nframes * 33 / 20
 		}
 		capt := r.Intn(40)
+		capt0 := capt
 		sinceKey := 0
 		for i := 0; i < n; i++ {
 			key := false
@@ -857,9 +858,11 @@ func streamCase(t *common.Trace, e common.Engine, r *common.Rng, c *caseCfg, lab
 				sinceKey++
 			}
 			if c.tsWild && i > 0 && r.Intn(6) == 0 {
-				// jump: back to just before / far before the first timestamp, or half way round
-				d := common.Pick(r, 1, 100, 65535, 65536, 100000, 1<<31-1, 1<<31, 1<<31+5, 3<<30)
-				back := uint32(capt*(s.rate/1000)) + uint32(d)
+				// jump: back to d ticks before the first timestamp (the origin, when the first frame is
+				// written): just before it, around the old (2^16) and the new (2^30) limit between "late"
+				// and "gone around 2^31", half way round
+				d := common.Pick(r, 1, 100, 65535, 65536, 100000, 1<<30-1, 1<<30, 1<<30+1, 1<<31-1, 1<<31, 1<<31+5, 3<<30)
+				back := uint32((capt-capt0)*(s.rate/1000)) + uint32(d)
 				if r.Intn(3) == 0 {
 					s.tsOff = 0
 				} else {
